@@ -25,4 +25,8 @@ TypeOKPred == /\ table \in Tables /\ 0 <= h /\ h <= H
               /\ \A i \in Insts : (rate[i] = -1 \/ \E N \in Rates : rate[i] = Stored(N))
               /\ \A i \in Insts : -1 <= bound[i] /\ bound[i] <= H
 SafetyBasicPred == TypeOKPred /\ BoundIsThreshold /\ KeepIsThreshold /\ RateLE1KeepsAll /\ InstancesAgree
+
+\* non-vacuity probes (a counterexample is expected): both kinds, a 64-bit hash space, a refusable profile
+ProbeDet == ~(Kind = "det" /\ H = 18446744073709551615 /\ \E i \in Started : rate[i] > 1000 /\ Answer(i).keep /\ h > 1000)
+ProbeStress == ~(Kind = "stress" /\ H = 18446744073709551615 /\ Rejectable # {} /\ \E i \in Started : rate[i] > 1000 /\ ~Answer(i).keep)
 =============================================================================
